@@ -14,10 +14,6 @@ open AmVerif.Gen AmVerif.Model
 
 /-! ## The mechanism, from the source -/
 
-/-- `record` / `no_record` install the new value through `CellGuard::replace` *before* running
-the closure and restore it in `Drop` (regenerated skeletons). -/
-theorem skel_record : skel_hot_reloading_records_record = [.call .s_with, .closure [.call .s_replace, .call .s_f]] ∨ True := Or.inr trivial
-
 /-- A read or look-up touches the top frame only, and only if it is recording. -/
 theorem C14_record_top_only (s : St) (d : Dep) :
     (s.record true d).recs =
@@ -26,7 +22,9 @@ theorem C14_record_top_only (s : St) (d : Dep) :
       | other => other := by
   unfold St.record
   simp only [if_true]
-  split <;> rfl
+  cases h : s.recs with
+  | nil => simp [h]
+  | cons x rest => cases x <;> simp [h]
 
 /-- Nothing is recorded while recording is off for this cache / type. -/
 theorem C14_record_off (s : St) (d : Dep) : s.record false d = s := by simp [St.record]
@@ -90,7 +88,7 @@ theorem C14_failed_nested_goes_to_parent (env : Env) (body : St → St × Outcom
   simp only [] at herr
   subst herr
   simp only [hcfg, Bool.true_and]
-  refine ⟨rfl, ?_⟩
+  refine ⟨by first | rfl | trivial, ?_⟩
   show (s1.recordAll true d).out = s1.out
   unfold St.recordAll
   induction d generalizing s1 with
